@@ -182,7 +182,7 @@ def is_f(v):
 def to_py(v):
     if is_f(v):
         k = v["__f__"]
-        return float(k) if isinstance(k, str) else k / FS
+        return float(k[4:] if k.startswith("off:") else k) if isinstance(k, str) else k / FS
     if isinstance(v, list):
         return [to_py(x) for x in v]
     if isinstance(v, dict):
@@ -199,6 +199,11 @@ def enc(v):
             return F("nan")
         if math.isinf(v):
             return F("inf" if v > 0 else "-inf")
+        if v * FS != int(v * FS):
+            # a float the IMPLEMENTATION produced that is outside the exact encoding (the generated inputs are inside it): kept as text;
+            # it equals no value of the model, so the term printer reports the case as a correspondence mismatch (cfl raises HarnessError,
+            # which run_property turns into a mismatch) and the oracles compare it as the float it is (to_py)
+            return {"__f__": "off:" + repr(v)}
         return F(v)
     if isinstance(v, (list, tuple)):
         return [enc(x) for x in v]
@@ -209,7 +214,7 @@ def enc(v):
 
 def has_nonfinite(v) -> bool:
     if is_f(v):
-        return isinstance(v["__f__"], str)
+        return isinstance(v["__f__"], str) and not v["__f__"].startswith("off:")
     if isinstance(v, list):
         return any(has_nonfinite(x) for x in v)
     if isinstance(v, dict):
@@ -219,6 +224,8 @@ def has_nonfinite(v) -> bool:
 
 def cfl(k) -> str:
     if isinstance(k, str):
+        if k.startswith("off:"):
+            raise HarnessError(f"float {k[4:]} returned by the implementation is not a multiple of 2^-10")
         return {"nan": "NaN", "inf": "PInf", "-inf": "NInf"}[k]
     return f"(Fin {cz(k)})"
 
